@@ -220,6 +220,21 @@ def make_rounds(rng, case):
     return case
 
 
+def g_prog_prio0(rng):
+    """A flow that declares the LOWEST legal priority, `priority 0.0`: every match of the flow is scaled to 0.0 — it does not
+    match (docs: "each match in the flow will then be multiplied by the current flow priority"); the others compete as usual."""
+    npay = rng.choice([1, 2, 3])
+    payload = {k: rng.choice([1, 2]) for k in rng.sample(KEYS, npay)}
+    n = rng.choice([2, 2, 3])
+    zero = rng.randrange(n)
+    flows = []
+    for i in range(n):
+        keys = rng.sample(list(payload), rng.randrange(0, len(payload) + 1))
+        flows.append({"pat": {k: payload[k] for k in keys}, "prio": "0.0" if i == zero else rng.choice([None, "0.5", "0.9"]), "loop": None,
+                      "shape": "direct", "kind": "action", "act": i, "ref": False, "stop_after": False})
+    return {"kind": "prog", "payload": payload, "flows": flows, "mode": "start", "followup": False}
+
+
 def g_prog_lowprio(rng):
     """Flows of one loop with a LOW declared priority (0.1 is what the shipped library flows use) on an event with many
     parameters, whose patterns mention neighbouring numbers of them: the scores are small (priority * 0.9^k), neighbouring
@@ -310,7 +325,7 @@ def gen_cases(rng, tier):
     cases = []
     for _ in range(n_prog):
         r = rng.random()
-        c = g_prog(rng) if r < 0.57 else (g_prog_paths(rng) if r < 0.82 else (g_prog_lowprio(rng) if r < 0.92 else (g_prog_stop2(rng) if r < 0.96 else g_prog_restart(rng))))
+        c = g_prog_prio0(rng) if r < 0.015 else g_prog(rng) if r < 0.57 else (g_prog_paths(rng) if r < 0.82 else (g_prog_lowprio(rng) if r < 0.92 else (g_prog_stop2(rng) if r < 0.96 else g_prog_restart(rng))))
         if tier == "quick":
             c["choices"] = [[rng.randrange(6) for _ in range(6)] for _ in range(3)]
         else:
@@ -1202,6 +1217,8 @@ def _pat_fits(case, pat):
 def fits(case, f):
     if f.get("trigger") in ("E2", "F"):
         return False  # waits for another event: the first event must leave it untouched
+    if f["prio"] and float(f["prio"]) == 0.0:
+        return False  # declared priority 0.0: every match of the flow is scaled to 0.0 = no match
     w = f.get("wait") or {}
     if w.get("kind") == "or" and isinstance(w.get("alt"), dict) and _pat_fits(case, w["alt"]):
         return True
@@ -1352,6 +1369,8 @@ def signature(case, obs, msg):
 def _signature(case, obs):
     try:
         calls = all_calls(case, obs)
+        if case.get("kind") == "prog" and any(f["prio"] and float(f["prio"]) == 0.0 and _pat_fits(case, f["pat"]) for f in case["flows"]):
+            return "priority-zero-unscaled"
         # most specific region first (the regions of the repaired findings overlap with the open ones)
         if any(double_delete_region(c) for c in calls):
             return "cowin-double-delete"
@@ -1397,6 +1416,8 @@ def _tags(case, obs):
         t.append("mode:" + case["mode"])
         for f in case["flows"]:
             t.append("shape:" + f["shape"])
+            if f["prio"] and float(f["prio"]) == 0.0:
+                t.append("priority-zero")
             if f.get("wait"):
                 t.append("wait:" + f["wait"]["kind"])
             for p_ in f.get("pre", []):
